@@ -50,6 +50,15 @@ theorem reversed_total (m : FM) (hw : Within m) : ∃ r, nucleicReversed m = .ok
 
 example : Within ⟨[.span 2 5 false, .lost 4, .span 7 9 true], 10⟩ := by decide
 
+/-- `m[n]` of a map inside its parent stays inside the parent (whatever the index map `n` is) -/
+theorem coords_within_parent_getitem (m n r : FM) (hw : Within m) (h : getitem m n = .ok r) :
+    Within r ∧ r.parentLength = m.parentLength :=
+  getitem_within m n r hw h
+
+example : Within ⟨[.span 2 5 false, .lost 2, .span 7 9 true], 10⟩ ∧
+    getitem ⟨[.span 2 5 false, .lost 2, .span 7 9 true], 10⟩ ⟨[.span 1 4 false, .lost 1, .span 3 9 true], 7⟩
+      = .ok ⟨[.span 3 5 false, .lost 1, .lost 1, .lost 2, .span 7 9 false, .lost 2], 10⟩ := by decide
+
 /-! ## 2. `nucleic_reversed` -/
 
 /-- reversal: the reversed map reads the parent's mirror image back to front -/
@@ -81,5 +90,81 @@ theorem reversed_spec_needs_fwd :
     ∃ m r, Within m ∧ nucleicReversed m = .ok r ∧
       cover r ≠ (cover m).reverse.map (Option.map (fun p => m.parentLength - 1 - p)) :=
   ⟨⟨[.span 2 5 true], 10⟩, ⟨[.span 5 8 false], 10⟩, by decide, by decide, by decide⟩
+
+/-! ## 3. `__getitem__` is composition -/
+
+/-- `Span(s, e, rev).remap_with(m)`: the span that contains map position `z` is found by
+    `bisect_right(offsets, z) - 1`, the pieces are trimmed with `Span.__getitem__`, and lost spans are
+    added where the span pokes outside `[0, len m)`.  Position by position the result is `m`'s cover
+    read at the span's own positions (`compose c (some j) = c[j]` if `0 ≤ j < len`, else lost).
+    Holds for forward and reversed index spans, with zero-length spans anywhere in `m`. -/
+theorem remap_with_spec (m : FM) (hN : NonNeg m) (hne : m.spans ≠ []) (s e : Int) (rv : Bool)
+    (h1 : s ≤ e) (h2 : 0 ≤ e) (h3 : s ≤ len m) :
+    ∃ parts, remapSpan s e rv m = .ok parts ∧
+      parts.flatMap coverSp = (coverSp (.span s e rv)).map (compose (cover m)) :=
+  remapSpan_spec m hN hne s e rv h1 h2 h3
+
+example : NonNeg ⟨[.span 2 5 false, .lost 2, .span 7 7 false, .span 7 9 true], 10⟩ ∧
+    remapSpan (-2) 9 true ⟨[.span 2 5 false, .lost 2, .span 7 7 false, .span 7 9 true], 10⟩
+      = .ok [.lost 2, .span 7 9 false, .span 7 7 true, .lost 2, .span 2 5 true, .lost 2] := by decide
+
+/-- `m[n]`: the cover of the result is the composition of the covers — for every index map `n`
+    whose spans are ordered and overlap or touch `[0, len m]` (forward or reversed, poking outside
+    allowed: those positions become lost), and every `m` with non-negative span lengths and at least
+    one span.  The call never fails under these hypotheses. -/
+theorem getitem_is_composition (m n : FM) (hN : NonNeg m) (hne : m.spans ≠ [])
+    (hn : ∀ x ∈ n.spans, x.idxOK (len m)) :
+    ∃ r, getitem m n = .ok r ∧ r.parentLength = m.parentLength ∧
+      cover r = (cover n).map (compose (cover m)) :=
+  getitem_spec m n hN hne hn
+
+example : NonNeg ⟨[.span 2 5 false, .lost 2, .span 7 9 true], 10⟩ ∧
+    (∀ x ∈ [FSp.span (-1) 4 false, .lost 1, .span 3 9 true], x.idxOK (len ⟨[.span 2 5 false, .lost 2, .span 7 9 true], 10⟩)) ∧
+    (getitem ⟨[.span 2 5 false, .lost 2, .span 7 9 true], 10⟩ ⟨[.span (-1) 4 false, .lost 1, .span 3 9 true], 7⟩).toOption.map cover
+      = some [none, some 2, some 3, some 4, none, none, none, none, some 7, some 8, none, none] := by decide
+
+/-- the same with the index map inside `[0, len m]`: plain list indexing of `cover m` -/
+theorem getitem_is_composition_inrange (m n : FM) (hN : NonNeg m) (hne : m.spans ≠ [])
+    (hn : ∀ x ∈ n.spans, x.idxIn (len m)) :
+    ∃ r, getitem m n = .ok r ∧ r.parentLength = m.parentLength ∧
+      cover r = (cover n).map (fun | none => none | some j => ((cover m)[j.toNat]?).join) := by
+  have hn' : ∀ x ∈ n.spans, x.idxOK (len m) := by
+    intro x hx
+    have := hn x hx
+    cases x with
+    | lost k => trivial
+    | span s e rv => simp only [FSp.idxIn] at this; simp only [FSp.idxOK]; omega
+  obtain ⟨r, hr, hp, hc⟩ := getitem_spec m n hN hne hn'
+  refine ⟨r, hr, hp, ?_⟩
+  rw [hc]
+  apply compose_eq_of_nonneg
+  intro o ho j hj
+  simp only [cover, List.mem_flatMap] at ho
+  obtain ⟨x, hx, hox⟩ := ho
+  exact coverSp_nonneg x (len m) (hn x hx) o hox j hj
+
+example : (∀ x ∈ [FSp.span 1 4 false, .lost 1, .span 3 7 true], x.idxIn (len ⟨[.span 2 5 false, .lost 2, .span 7 9 true], 10⟩)) := by decide
+
+/-- an index span lying entirely outside the map (`e < 0`, or `s > len m`) is NOT remapped to a lost
+    span of its own length (`zlo > zhi` in `remap_with`): `Span(-5, -2)` gives `LostSpan(5)`, and
+    `Span(7, 9)` on a map of length 5 gives `[9:9, LostSpan(4)]`.  (Same behaviour observed on the
+    real `Span.remap_with`.)  So the `idxOK` hypothesis of `getitem_is_composition` is needed. -/
+theorem getitem_outside_counter :
+    ∃ m n r, NonNeg m ∧ m.spans ≠ [] ∧ getitem m n = .ok r ∧ len r ≠ len n :=
+  ⟨⟨[.span 2 5 false, .span 7 9 false], 10⟩, ⟨[.span (-5) (-2) false], 5⟩, ⟨[.lost 5], 10⟩,
+    by decide, by decide, by decide, by decide⟩
+
+/-! ## 4. `covered()` is the union -/
+
+/-- `covered()` (delta dict, sorted keys, sweep, `from_locations`): a parent position is covered by
+    the result iff it is covered by some span of the map (overlapping, nested, touching, reversed and
+    zero-length spans included) -/
+theorem covered_is_union (m c : FM) (hw : Within m) (h : covered m = .ok c) :
+    ∀ p, some p ∈ cover c ↔ some p ∈ cover m :=
+  covered_mem m c hw h
+
+example : Within ⟨[.span 10 20 false, .span 15 25 true, .lost 3, .span 25 30 false, .span 40 40 false, .span 80 90 false, .span 12 14 false], 100⟩ ∧
+    covered ⟨[.span 10 20 false, .span 15 25 true, .lost 3, .span 25 30 false, .span 40 40 false, .span 80 90 false, .span 12 14 false], 100⟩
+      = .ok ⟨[.span 10 30 false, .span 80 90 false], 100⟩ := by decide
 
 end CogentModel.C08
